@@ -116,6 +116,8 @@ type RunOpts struct {
 	ExtraRequires []string
 	Suffix        string // symbol suffix for self-composition
 	SkipPost      bool
+	FreshBase     int
+	InlineAll     bool
 }
 
 // RunFunc symbolically executes pkg.key under its contract and collects obligations.
@@ -144,7 +146,9 @@ func (w *World) RunFunc(pkg, key string, opts RunOpts) (fr *FuncRun) {
 			panic(r)
 		}
 	}()
+	vc.fresh = opts.FreshBase
 	ex := newExec(vc, fn, nil)
+	ex.inlineAll = opts.InlineAll
 	ex.forceInline = opts.ForceInline
 	ex.appendMustFit = opts.AppendMustFit
 	ex.allocFilter = opts.AllocFilter
